@@ -6,6 +6,11 @@ import (
 )
 
 func getSliceProperty[TPropertyType any](value *any, targetType reflect.Type) (*TPropertyType, error) {
+	// A JSON5 'null' yields a nil interface, which has no reflected type
+	if value == nil || *value == nil {
+		return nil, fmt.Errorf("a null value cannot be converted to type %s", targetType.String())
+	}
+
 	// Ensure the value is also a slice
 	if reflect.TypeOf(*value).Kind() != reflect.Slice {
 		return nil, fmt.Errorf("value %v cannot be converted to type %s", value, targetType.String())
@@ -22,8 +27,8 @@ func getSliceProperty[TPropertyType any](value *any, targetType reflect.Type) (*
 		sourceElem := sourceSlice.Index(i).Interface()
 		sourceElemValue := reflect.ValueOf(sourceElem)
 
-		// Check if the source element can be converted to the target element type
-		if !sourceElemValue.Type().ConvertibleTo(targetElemType) {
+		// Check if the source element can be converted to the target element type (a null element has no type at all)
+		if !sourceElemValue.IsValid() || !sourceElemValue.Type().ConvertibleTo(targetElemType) {
 			return nil, fmt.Errorf("element %v at index %d cannot be converted to type %s", sourceElem, i, targetElemType.String())
 		}
 
